@@ -96,10 +96,64 @@ def ops : List (String × Op) := [
   ("di2c", ivOp cdsIntervalToSequence)
 ]
 
+/-! ### transcripts built on a chunk: `<op> <tx> <ws> <we> <wstrand> <args>` (`<P>` of `<tx>` is the chromosome length) -/
+
+def buildChunk (r : RawTx) (ws we : Nat) (wst : Strand) : R ChunkTranscript :=
+  let all := r.exons ++ (r.cds.getD [])
+  if all.any (fun b => b.1 < 0 ∨ b.2 < 0) then throw .InvalidPosition
+  else mkChunkTranscript (toBlks r.exons) r.st (r.cds.map toBlks) (ws, we) wst
+
+def showVecC (t : R ChunkTranscript) (lo hi : Int) (f : ChunkTranscript → Int → R Int) : String :=
+  match t with
+  | .error e => "err " ++ showErr e
+  | .ok tx =>
+    let n := (hi - lo + 1).toNat
+    "ok " ++ " ".intercalate ((List.range n).map fun (i : Nat) => showCell (f tx (lo + (i : Int))))
+
+def pWin : P (Nat × Nat × Strand) := do
+  let ws ← pNat; let we ← pNat; let wst ← pStrand; pure (ws, we, wst)
+
+def kvecOp (f : ChunkTranscript → Int → R Int) : Op := do
+  let r ← pRawTx; let (ws, we, wst) ← pWin; let lo ← pInt; let hi ← pInt
+  pure (showVecC (buildChunk r ws we wst) lo hi f)
+
+def klocOp (f : ChunkTranscript → R Location) : Op := do
+  let r ← pRawTx; let (ws, we, wst) ← pWin
+  pure (showR showLocation (do let t ← buildChunk r ws we wst; f t))
+
+def kivOp (f : ChunkTranscript → Int → Int → Strand → R Location) : Op := do
+  let r ← pRawTx; let (ws, we, wst) ← pWin; let s ← pInt; let e ← pInt; let st ← pStrand
+  pure (showR showLocation (do let t ← buildChunk r ws we wst; f t s e st))
+
+open Model.ChunkTranscript in
+def chunkOps : List (String × Op) := [
+  -- chromosome-level methods of the chunk-built transcript
+  ("kc2t", kvecOp fun c => c.base.sequencePosToTranscript),
+  ("kt2c", kvecOp fun c => c.base.transcriptPosToSequence),
+  ("kc2d", kvecOp fun c => c.base.sequencePosToCds),
+  ("kd2c", kvecOp fun c => c.base.cdsPosToSequence),
+  ("kd2t", kvecOp fun c => c.base.cdsPosToTranscript),
+  ("kt2d", kvecOp fun c => c.base.transcriptPosToCds),
+  ("kci2t", kivOp fun c => c.base.sequenceIntervalToTranscript),
+  -- chunk-relative methods
+  ("cr2t", kvecOp chunkRelativePosToTranscript),
+  ("t2cr", kvecOp transcriptPosToChunkRelative),
+  ("cr2d", kvecOp chunkRelativePosToCds),
+  ("d2cr", kvecOp cdsPosToChunkRelative),
+  ("cri2t", kivOp chunkRelativeIntervalToTranscript),
+  ("ti2cr", kivOp transcriptIntervalToChunkRelative),
+  ("cri2d", kivOp chunkRelativeIntervalToCds),
+  ("di2cr", kivOp cdsIntervalToChunkRelative),
+  ("kutr5", klocOp get5pInterval),
+  ("kutr3", klocOp get3pInterval),
+  ("kloc", klocOp fun c => pure c.location),
+  ("kcdsloc", klocOp fun c => c.requireCodingLocation)
+]
+
 /-- One answer per line; the lines are independent, so they are answered on all cores
     (the interpreter behind `lean --run` is the bottleneck of this check, not the library). -/
 def answer (line : String) : String :=
-  runOp ops (line.trimRight)
+  runOp (ops ++ chunkOps) (line.trimRight)
 
 def main : IO Unit := do
   let stdin ← IO.getStdin
